@@ -43,9 +43,10 @@ def _cands(labels, kind, monotonic):
     if not s:
         return [None, D.BASE[kind][0], D.BASE[kind][1]]
     step = 5 if kind == "i" else 0.5
+    eps = 0.5 if kind == "i" else 0.125     # fractional bounds hugging a label from either side
     out = [None, s[0] - step]
     for i, l in enumerate(s):
-        out.append(l)
+        out.extend([l - eps, l, l + eps])
         if i + 1 < len(s):
             out.append(l + step)
     out.append(s[-1] + step)
